@@ -48,6 +48,7 @@ type c15Case struct {
 	EOFChunk int `json:",omitempty"`
 	// http: every goroutine decodes into one Target variable of its own again and again and keeps copies of what it drew
 	ReuseVar bool `json:",omitempty"`
+	CRLF     bool `json:",omitempty"` // lines end in CR LF
 }
 
 func c15Letters(i int) string {
@@ -177,6 +178,9 @@ func c15Doc(c c15Case) (text string, cleanup func(), err error) {
 			}
 			doc.WriteString("}\n")
 		}
+	}
+	if c.CRLF {
+		return strings.ReplaceAll(doc.String(), "\n", "\r\n"), cleanup, nil
 	}
 	return doc.String(), cleanup, nil
 }
@@ -442,8 +446,9 @@ func TestC15Concurrent(t *testing.T) {
 			c.Bodies = rapid.Bool().Draw(t, "bodies")
 			c.SharedDef = rapid.Bool().Draw(t, "shareddef")
 			if rapid.IntRange(0, 2).Draw(t, "eofchunk") == 0 {
-				c.EOFChunk = rapid.SampledFrom([]int{1 << 30, 4096, 100, 7}).Draw(t, "eofchunkn")
+				c.EOFChunk = rapid.SampledFrom([]int{1 << 30, 4096, 100, 7, 1, 2, 3}).Draw(t, "eofchunkn")
 			}
+			c.CRLF = rapid.IntRange(0, 2).Draw(t, "crlf") == 0
 			if c.Kind == "http" {
 				c.ReuseVar = rapid.IntRange(0, 2).Draw(t, "reusevar") == 0
 				c.Compact = rapid.Bool().Draw(t, "compact")
